@@ -42,6 +42,11 @@ func c11feed(c *Sexp) (<-chan tree.Trees, error) {
 		if badkind == "taxa" && badposs[i] {
 			t.Tips()[0].SetName("zz_foreign")
 		}
+		if badkind == "errtree" && badposs[i] {
+			// a record that carries an error AND a (partial) tree, as the PhyloXML reader can deliver
+			items = append(items, tree.Trees{Tree: t, Id: i, Err: errors.New("injected reader error with a partial tree")})
+			continue
+		}
 		items = append(items, tree.Trees{Tree: t, Id: i})
 	}
 	ch := make(chan tree.Trees, 4)
